@@ -193,7 +193,36 @@ func codecOpts(o Opts) []runtime.CSVOpt {
 	if o.Skip != 0 {
 		out = append(out, runtime.WithCSVSkipLines(o.Skip))
 	}
+	if o.Order > 0 && o.Order < numOrders(o) {
+		listed := make([]runtime.CSVOpt, len(out))
+		for i, from := range optionOrders[len(out)][o.Order] {
+			listed[i] = out[from]
+		}
+		out = listed
+	}
 	return out
+}
+
+// optionOrders[k]: the permutations of a list of k options; index 0 is the canonical listing
+// (reader options, writer options, skipped lines).
+var optionOrders = [4][][]int{
+	{{}}, {{0}}, {{0, 1}, {1, 0}},
+	{{0, 1, 2}, {0, 2, 1}, {1, 0, 2}, {1, 2, 0}, {2, 0, 1}, {2, 1, 0}},
+}
+
+// numOrders: in how many orders the options that express the set can be listed (k! for k options).
+func numOrders(o Opts) int {
+	k := 0
+	if hasReaderOpts(o) || o.Reuse {
+		k++
+	}
+	if o.CRLF || o.WComma {
+		k++
+	}
+	if o.Skip != 0 {
+		k++
+	}
+	return len(optionOrders[k])
 }
 
 func writerComma(o Opts) rune {
@@ -386,8 +415,11 @@ func run1(cd *codec, kind string, text string, o Opts, pre int, table [][]string
 		case "to:*[][]string":
 			d := preTable(pre)
 			guard(&out, func() error { return cons.Consume(in, &d) })
-			out.Recs = d
 			out.Alias = aliased(d)
+			if out.Panic == "" && out.Alias == "" {
+				out.Alias = hostileCaller(d)
+			}
+			out.Recs = d
 		case "to:*[]byte":
 			d := preBytes(pre)
 			guard(&out, func() error { return cons.Consume(in, &d) })
@@ -476,6 +508,62 @@ func aliased(t [][]string) string {
 		}
 	}
 	return ""
+}
+
+// hostileCaller is the caller that owns the delivered table and uses each record as its own: for
+// every record in turn it writes over the whole storage of that record - its fields and the spare
+// capacity an append would use - and every OTHER record must still hold the text it was delivered
+// with. The record's own fields are put back afterwards, so the table is returned as delivered.
+func hostileCaller(t [][]string) string {
+	snap := cloneTable(t)
+	for i := range t {
+		full := t[i][:cap(t[i])]
+		for k := range full {
+			full[k] = "\x00scribbled by the caller"
+		}
+		for j := range t {
+			if j == i {
+				continue
+			}
+			for k := range snap[j] {
+				if t[j][k] != snap[j][k] {
+					got, want := t[j][k], snap[j][k]
+					for q := range t {
+						copy(t[q], snap[q]) // shown as delivered
+					}
+					return fmt.Sprintf("after the caller appended to / wrote over record %d (len %d, cap %d), field %d of record %d reads %q instead of %q",
+						i, len(snap[i]), cap(t[i]), k, j, got, want)
+				}
+			}
+		}
+		copy(t[i], snap[i])
+	}
+	return ""
+}
+
+// tableTexts is the record-count axis for record tables: every sequence of at most maxRecs records
+// of 1, 2 or 3 fields "a" (comma separated, one record per line, no trailing newline) that is longer
+// than the longest text of the primary space.
+func tableTexts(maxRecs, longerThan int) []string {
+	var out []string
+	level := []string{""}
+	for r := 1; r <= maxRecs; r++ {
+		var next []string
+		for _, prefix := range level {
+			for _, rec := range []string{"a", "a,a", "a,a,a"} {
+				t := rec
+				if prefix != "" {
+					t = prefix + "\n" + rec
+				}
+				next = append(next, t)
+				if len(t) > longerThan {
+					out = append(out, t)
+				}
+			}
+		}
+		level = next
+	}
+	return out
 }
 
 // ---- shared-instance sequences ----
